@@ -131,7 +131,7 @@ const BASES: [(&str, usize, usize); 12] = [
 fn gen_gate(src: &mut Src, n_qubits: u64, max_mods: usize) -> GenGate {
     let (base, k, np) = *src.pick(&BASES);
     let mut free: Vec<u64> = (0..n_qubits).collect();
-    let mut take = |src: &mut Src, free: &mut Vec<u64>| free.remove(src.below(free.len()));
+    let take = |src: &mut Src, free: &mut Vec<u64>| free.remove(src.below(free.len()));
     let base_qubits: Vec<u64> = (0..k).map(|_| take(src, &mut free)).collect();
     let nmods = src.below(max_mods + 1);
     let mut modifiers = vec![];
@@ -182,7 +182,7 @@ fn stack_kind(g: &GenGate) -> &'static str {
     }
 }
 
-fn check_single(g: &GenGate, n: u64, out: &mut Outcome) -> Check {
+fn check_single(g: &GenGate, n: u64, _out: &mut Outcome) -> Check {
     let local = match g.model_local() {
         Some(m) => m,
         None => fail!("harness:c15-model", "model cannot build {g:?}"),
